@@ -319,6 +319,16 @@ void explore08(Options const& o, std::vector<Shim*> const& shims, std::vector<Sh
           e.inputs = {{"a", to_s(k1)}, {"b", to_s(k2)}}; e.expected = to_s(b) + " (same call with opaque arguments)"; e.got = sg ? "signal" : to_s(a); e.rcase = "constarg"; e.rin = { "1", to_s(op), to_s(ki), to_s(kj) }; return e; });
       }
     }
+  for( size_t ci = 0; ci < shims.size(); ++ci )
+    {
+    Shim* s = shims[ci]; LocalViol lv(rec);
+    for( int cosine = 0; cosine < 2; ++cosine ) for( int ki = 0; ki < s->fm_angle_constarg_count(); ++ki )
+      {
+      int32_t d = s->fm_angle_constarg_value(ki); i64 a = 0, b = 0; int sg = guarded([&]{ a = s->fm_angle_constarg(cosine, ki); b = s->fm_angle_aprox(cosine, d); }); ++n;
+      if( sg || a != b ) lv.hit(rec.cls(std::string("C08.constant_argument_result_differs.") + (cosine ? "cos_angle_aprox" : "sin_angle_aprox")), (static_cast<u64>(ci) << 56) | (2ull << 40) | static_cast<u64>(cosine * 64 + ki), [=]{ Example e; e.entry = cosine ? "cos_angle_aprox" : "sin_angle_aprox"; e.cfg = s->name; e.shape = "argument is a literal";
+          e.inputs = {{"angle", to_s(d)}}; e.expected = to_s(b) + " (same call with an opaque argument)"; e.got = sg ? "signal" : to_s(a); e.rcase = "constarg"; e.rin = { "2", to_s(cosine), to_s(ki), "0" }; return e; });
+      }
+    }
   rec.add_states(n, 2 * n, n); rec.count("constant_argument_states", n);
   }
   // (1c) comparisons of a fresh result against constants in the same inlined scope as the call must agree with the returned value
@@ -433,7 +443,7 @@ void replay08(Options const& o, Shim* s, Recorder& rec)
       return; }
   if( o.rcase == "constarg" )
     { int bin = static_cast<int>(parse_i64(o.rin.at(0))), op = static_cast<int>(parse_i64(o.rin.at(1))), ki = static_cast<int>(parse_i64(o.rin.at(2))), kj = static_cast<int>(parse_i64(o.rin.at(3)));
-      i64 a = 0, b = 0; int sg = guarded([&]{ if( bin ) { a = s->fm_bin_constarg(op, ki, kj); b = s->fm_bin(op, s->fm_constarg_value(1, ki), s->fm_constarg_value(1, kj)); } else { a = s->fm_un_constarg(op, ki); b = s->fm_un(op, s->fm_constarg_value(0, ki)); } });
+      i64 a = 0, b = 0; int sg = guarded([&]{ if( bin == 2 ) { a = s->fm_angle_constarg(op, ki); b = s->fm_angle_aprox(op, s->fm_angle_constarg_value(ki)); } else if( bin ) { a = s->fm_bin_constarg(op, ki, kj); b = s->fm_bin(op, s->fm_constarg_value(1, ki), s->fm_constarg_value(1, kj)); } else { a = s->fm_un_constarg(op, ki); b = s->fm_un(op, s->fm_constarg_value(0, ki)); } });
       if( sg || a != b ) rec.viol(rec.cls("C08.constant_argument_result_differs.replay"), 0, [&]{ Example e; e.entry = "constant-argument instantiation"; e.cfg = o.rcfg; e.expected = to_s(b); e.got = to_s(a); e.rcase = o.rcase; e.rin = o.rin; return e; });
       return; }
   if( o.rcase == "hist" )
